@@ -28,6 +28,9 @@ Extract/C18x.vos Extract/C18x.vok Extract/C18x.required_vos: Extract/C18x.v gen/
 Extract/C19x.vo Extract/C19x.glob Extract/C19x.v.beautified Extract/C19x.required_vo: Extract/C19x.v Model/WebIde.vo Spec/C19Judge.vo
 Extract/C19x.vio: Extract/C19x.v Model/WebIde.vio Spec/C19Judge.vio
 Extract/C19x.vos Extract/C19x.vok Extract/C19x.required_vos: Extract/C19x.v Model/WebIde.vos Spec/C19Judge.vos
+Extract/C20x.vo Extract/C20x.glob Extract/C20x.v.beautified Extract/C20x.required_vo: Extract/C20x.v Model/Resource.vo Spec/C20Judge.vo
+Extract/C20x.vio: Extract/C20x.v Model/Resource.vio Spec/C20Judge.vio
+Extract/C20x.vos Extract/C20x.vok Extract/C20x.required_vos: Extract/C20x.v Model/Resource.vos Spec/C20Judge.vos
 Model/Control.vo Model/Control.glob Model/Control.v.beautified Model/Control.required_vo: Model/Control.v gen/C18Tables.vo
 Model/Control.vio: Model/Control.v gen/C18Tables.vio
 Model/Control.vos Model/Control.vok Model/Control.required_vos: Model/Control.v gen/C18Tables.vos
@@ -163,6 +166,9 @@ Properties/C18.vos Properties/C18.vok Properties/C18.required_vos: Properties/C1
 Properties/C19.vo Properties/C19.glob Properties/C19.v.beautified Properties/C19.required_vo: Properties/C19.v Model/WebIde.vo Proofs/C19Proofs.vo
 Properties/C19.vio: Properties/C19.v Model/WebIde.vio Proofs/C19Proofs.vio
 Properties/C19.vos Properties/C19.vok Properties/C19.required_vos: Properties/C19.v Model/WebIde.vos Proofs/C19Proofs.vos
+Properties/C20.vo Properties/C20.glob Properties/C20.v.beautified Properties/C20.required_vo: Properties/C20.v Model/Resource.vo Proofs/C20Proofs.vo
+Properties/C20.vio: Properties/C20.v Model/Resource.vio Proofs/C20Proofs.vio
+Properties/C20.vos Properties/C20.vok Properties/C20.required_vos: Properties/C20.v Model/Resource.vos Proofs/C20Proofs.vos
 Spec/C04.vo Spec/C04.glob Spec/C04.v.beautified Spec/C04.required_vo: Spec/C04.v 
 Spec/C04.vio: Spec/C04.v 
 Spec/C04.vos Spec/C04.vok Spec/C04.required_vos: Spec/C04.v 
@@ -196,6 +202,9 @@ Spec/C18Judge.vos Spec/C18Judge.vok Spec/C18Judge.required_vos: Spec/C18Judge.v 
 Spec/C19Judge.vo Spec/C19Judge.glob Spec/C19Judge.v.beautified Spec/C19Judge.required_vo: Spec/C19Judge.v Model/WebIde.vo
 Spec/C19Judge.vio: Spec/C19Judge.v Model/WebIde.vio
 Spec/C19Judge.vos Spec/C19Judge.vok Spec/C19Judge.required_vos: Spec/C19Judge.v Model/WebIde.vos
+Spec/C20Judge.vo Spec/C20Judge.glob Spec/C20Judge.v.beautified Spec/C20Judge.required_vo: Spec/C20Judge.v Model/Resource.vo
+Spec/C20Judge.vio: Spec/C20Judge.v Model/Resource.vio
+Spec/C20Judge.vos Spec/C20Judge.vok Spec/C20Judge.required_vos: Spec/C20Judge.v Model/Resource.vos
 gen/C05Sites.vo gen/C05Sites.glob gen/C05Sites.v.beautified gen/C05Sites.required_vo: gen/C05Sites.v 
 gen/C05Sites.vio: gen/C05Sites.v 
 gen/C05Sites.vos gen/C05Sites.vok gen/C05Sites.required_vos: gen/C05Sites.v 
